@@ -1,6 +1,7 @@
 (* Executable entry points for the C19 correspondence shards. *)
 From Coq Require Import List NArith Bool.
 From AdltV Require Import Base.Obs Base.Res Base.MachInt Plugins.Chain Plugins.Anon.
+From AdltV Require Export Plugins.Decoders.   (* the shards name the answer constructors *)
 From AdltV Require Lifecycle.Model.
 Import ListNotations.
 Open Scope N_scope.
@@ -166,12 +167,35 @@ Definition erase_ecu (o : otree) : otree :=
   | _ => o
   end.
 
+(* ---------------------------------------------------------------- wrapper models of the real decoders *)
+(* one entry per decoder of the chain: the answers of the abstract decoding, one per message the plugin sees,
+   as observed from the real run (harness: Spy plugin around the real plugin) *)
+Inductive dspec :=
+| DNv (enabled : bool) (answers : list nv_answer)
+| DSomeip (answers : list text_answer)
+| DCan (answers : list can_answer)
+| DMuniic (answers : list text_answer)
+| DRewrite (enabled : bool) (answers : list (list rw_action)).
+
+Definition EH (v n a c : N) : ext_hdr := {| e_vmm := v; e_noar := n; e_apid := a; e_ctid := c |}.
+
+(* plugin state = the answers not yet consumed *)
+Definition dec_plugin (d : dspec) : plugin :=
+  match d with
+  | DNv en l => nv_plugin l (fun s _ => tl s) en (fun s _ => hd NvNoFrame s)
+  | DSomeip l => someip_plugin l (fun s _ => tl s) (fun s _ => hd TNone s)
+  | DCan l => can_plugin l (fun s _ => tl s) (fun s _ => hd (CanErr []) s)
+  | DMuniic l => muniic_plugin l (fun s _ => tl s) (fun s _ => hd TNone s)
+  | DRewrite en l => rewrite_plugin l (fun s _ => tl s) en (fun s _ => hd [] s)
+  end.
+
 (* ---------------------------------------------------------------- cases *)
 Inductive case_C19 :=
 | CLoop (scripts : list (N * list action)) (cap : option N) (ms : list msg)
 | CAnon (ms : list msg)
 | CAnonPop (necu napid nctid n : N)
 | CFrame (allow_ts : bool) (ins : list (msg * bool))
+| CDec (chain : list dspec) (ms : list msg)
 | CEquiv (orig anon : list lc_spec).
 
 Definition o_loop (r : option msg * list plugin * list msg) : otree :=
@@ -203,6 +227,7 @@ Definition run_C19 (c : case_C19) : otree :=
   | CAnon ms => o_anon (anon_run true anon_init ms)
   | CAnonPop necu napid nctid n => o_anon_ids (anon_run true anon_init (pop_stream necu napid nctid n))
   | CFrame _ _ => T []
+  | CDec chain ms => T [L 0; T (map o_msg (snd (process (map dec_plugin chain) ms)))]
   | CEquiv a b => T [o_detect true a; o_detect true b]
   end.
 
